@@ -155,6 +155,71 @@ pub struct Flip {
     pub xor: u8,
 }
 
+/// How the simulated file builds the `io::Error` values it returns. The
+/// kind is the same in every representation; what differs is what a caller
+/// that looks *inside* the error would see.
+#[derive(Clone, Copy, Debug, PartialEq, Eq)]
+pub enum ErrRepr {
+    /// `io::Error::new(kind, "text")`: a custom error with a string payload
+    Message,
+    /// `io::Error::from(kind)`: no payload at all
+    Simple,
+    /// `io::Error::from_raw_os_error(errno)` where an errno with that kind
+    /// exists (EINTR, ENOSPC, EPIPE, EACCES, EAGAIN, ETIMEDOUT), else Simple
+    OsCode,
+    /// a custom error whose payload is itself an `fst::Error` (a sink built
+    /// on top of this very library)
+    FstPayload,
+}
+
+pub const ERR_REPRS: [ErrRepr; 4] = [ErrRepr::Message, ErrRepr::Simple, ErrRepr::OsCode, ErrRepr::FstPayload];
+
+impl ErrRepr {
+    pub fn name(self) -> &'static str {
+        match self {
+            ErrRepr::Message => "message",
+            ErrRepr::Simple => "simple_kind",
+            ErrRepr::OsCode => "os_code",
+            ErrRepr::FstPayload => "fst_error_payload",
+        }
+    }
+    pub fn from_name(n: &str) -> Option<ErrRepr> {
+        ERR_REPRS.iter().copied().find(|r| r.name() == n)
+    }
+    pub fn make(self, kind: io::ErrorKind, msg: &'static str) -> io::Error {
+        match self {
+            ErrRepr::Message => io::Error::new(kind, msg),
+            ErrRepr::Simple => io::Error::from(kind),
+            ErrRepr::OsCode => {
+                let code = match kind {
+                    io::ErrorKind::Interrupted => 4,
+                    io::ErrorKind::StorageFull => 28,
+                    io::ErrorKind::BrokenPipe => 32,
+                    io::ErrorKind::PermissionDenied => 13,
+                    io::ErrorKind::WouldBlock => 11,
+                    io::ErrorKind::TimedOut => 110,
+                    _ => 0,
+                };
+                if code != 0 {
+                    let e = io::Error::from_raw_os_error(code);
+                    if e.kind() == kind {
+                        return e;
+                    }
+                }
+                io::Error::from(kind)
+            }
+            ErrRepr::FstPayload => {
+                // an error of the library's own type, obtained the public way
+                let inner: fst::Error = match fst::raw::Fst::new(Vec::<u8>::new()) {
+                    Err(e) => e,
+                    Ok(_) => return io::Error::new(kind, msg),
+                };
+                io::Error::new(kind, inner)
+            }
+        }
+    }
+}
+
 /// The explicit, replayable description of sink behaviour.
 #[derive(Clone, Debug, PartialEq, Eq)]
 pub struct Plan {
@@ -176,6 +241,8 @@ pub struct Plan {
     /// The file implements `write_vectored` natively: one call may accept
     /// bytes across several of the caller's buffers (and stop anywhere).
     pub vectored: bool,
+    /// representation of every error this file returns (Interrupted included)
+    pub err_repr: ErrRepr,
 }
 
 impl Plan {
@@ -190,10 +257,11 @@ impl Plan {
             fault_write: None,
             fault_flush: None,
             vectored: false,
+            err_repr: ErrRepr::Message,
         }
     }
     pub fn is_clean(&self) -> bool {
-        *self == Plan::clean()
+        Plan { err_repr: ErrRepr::Message, ..self.clone() } == Plan::clean()
     }
 }
 
@@ -315,6 +383,7 @@ impl SinkState {
             fault_write: self.plan.fault_write,
             fault_flush: self.plan.fault_flush,
             vectored: self.plan.vectored,
+            err_repr: self.plan.err_repr,
         }
     }
 
@@ -435,7 +504,7 @@ impl SinkState {
         let ev = self.ev_idx;
         if self.crashed {
             self.push_ev(EvKind::Write, buf.len(), -4);
-            return Err(io::Error::new(ErrKind::Crash.io_kind(), "sim: crashed"));
+            return Err(self.plan.err_repr.make(ErrKind::Crash.io_kind(), "sim: crashed"));
         }
         if let Some((c, torn)) = self.plan.crash {
             if ev >= c {
@@ -448,10 +517,7 @@ impl SinkState {
                 self.note_fault(ev, ErrKind::Crash);
                 self.w_idx += 1;
                 self.push_ev(EvKind::Write, buf.len(), -4);
-                return Err(io::Error::new(
-                    ErrKind::Crash.io_kind(),
-                    "sim: crash",
-                ));
+                return Err(self.plan.err_repr.make(ErrKind::Crash.io_kind(), "sim: crash"));
             }
         }
         if let Some((s, kind)) = self.plan.sticky {
@@ -460,7 +526,7 @@ impl SinkState {
                 self.note_fault(ev, kind);
                 self.w_idx += 1;
                 self.push_ev(EvKind::Write, buf.len(), -2);
-                return Err(io::Error::new(kind.io_kind(), "sim: sticky fault"));
+                return Err(self.plan.err_repr.make(kind.io_kind(), "sim: sticky fault"));
             }
         }
         if buf.is_empty() {
@@ -476,7 +542,7 @@ impl SinkState {
                 self.fired.intr += 1;
                 self.rec_w(WStep::Intr);
                 self.push_ev(EvKind::Write, buf.len(), -1);
-                Err(io::Error::new(io::ErrorKind::Interrupted, "sim: EINTR"))
+                Err(self.plan.err_repr.make(io::ErrorKind::Interrupted, "sim: EINTR"))
             }
             WStep::Err(kind) => {
                 self.intr_run = 0;
@@ -484,7 +550,7 @@ impl SinkState {
                 self.note_fault(ev, kind);
                 self.rec_fault_or(step);
                 self.push_ev(EvKind::Write, buf.len(), -2);
-                Err(io::Error::new(kind.io_kind(), "sim: injected fault"))
+                Err(self.plan.err_repr.make(kind.io_kind(), "sim: injected fault"))
             }
             WStep::Zero => {
                 self.intr_run = 0;
@@ -524,7 +590,7 @@ impl SinkState {
         let ev = self.ev_idx;
         if self.crashed {
             self.push_ev(EvKind::Flush, 0, -4);
-            return Err(io::Error::new(ErrKind::Crash.io_kind(), "sim: crashed"));
+            return Err(self.plan.err_repr.make(ErrKind::Crash.io_kind(), "sim: crashed"));
         }
         if let Some((c, _)) = self.plan.crash {
             if ev >= c {
@@ -533,10 +599,7 @@ impl SinkState {
                 self.note_fault(ev, ErrKind::Crash);
                 self.f_idx += 1;
                 self.push_ev(EvKind::Flush, 0, -4);
-                return Err(io::Error::new(
-                    ErrKind::Crash.io_kind(),
-                    "sim: crash",
-                ));
+                return Err(self.plan.err_repr.make(ErrKind::Crash.io_kind(), "sim: crash"));
             }
         }
         if let Some((s, kind)) = self.plan.sticky {
@@ -545,7 +608,7 @@ impl SinkState {
                 self.note_fault(ev, kind);
                 self.f_idx += 1;
                 self.push_ev(EvKind::Flush, 0, -2);
-                return Err(io::Error::new(kind.io_kind(), "sim: sticky fault"));
+                return Err(self.plan.err_repr.make(kind.io_kind(), "sim: sticky fault"));
             }
         }
         let mut step = if self.f_idx < self.plan.flushes.len() {
@@ -573,7 +636,7 @@ impl SinkState {
                 self.fired.flush_err += 1;
                 self.note_fault(ev, kind);
                 self.push_ev(EvKind::Flush, 0, -2);
-                Err(io::Error::new(kind.io_kind(), "sim: injected flush fault"))
+                Err(self.plan.err_repr.make(kind.io_kind(), "sim: injected flush fault"))
             }
         }
     }
